@@ -3,6 +3,7 @@ use super::{
     WriterError, WriterResult, io, xml_name_to_rust_name,
 };
 use crate::model::{
+    rust_str,
     helpers::{write_check_restrictions_footer, write_check_restrictions_header},
     structures::restrictions::Restrictions,
 };
@@ -97,11 +98,13 @@ where
 {
     writeln!(writer, "#[derive(Debug, Default, YaSerialize, YaDeserialize)]")?;
     if let Some(tns) = &target_namespace {
-        let namespaces = format!("\"{}\" = \"{}\"", tns.abbreviation, tns.namespace);
+        let namespaces = format!("\"{}\" = \"{}\"", tns.abbreviation, rust_str(&tns.namespace));
         writeln!(
             writer,
             "#[yaserde(prefix = \"{}\", namespaces = {{{}}}, rename = \"{}\")]",
-            tns.abbreviation, namespaces, xml_name
+            tns.abbreviation,
+            namespaces,
+            rust_str(xml_name)
         )?;
     }
     writeln!(writer, "pub struct {rust_name} {{")?;
@@ -161,13 +164,15 @@ where
         }
         let namespaces = declared
             .iter()
-            .map(|ns| format!("\"{}\" = \"{}\"", ns.abbreviation, ns.namespace))
+            .map(|ns| format!("\"{}\" = \"{}\"", ns.abbreviation, rust_str(&ns.namespace)))
             .collect::<Vec<String>>()
             .join(", ");
         writeln!(
             writer,
             "#[yaserde(prefix = \"{}\", namespaces = {{{}}}, rename = \"{}\")]",
-            tns.abbreviation, namespaces, xml_name
+            tns.abbreviation,
+            namespaces,
+            rust_str(xml_name)
         )?;
     }
     writeln!(writer, "pub struct {rust_name} {{")?;
